@@ -210,6 +210,28 @@ def steps(rep):
         rep.add(f'C19.AnnotatedTypeHint._is_subhint_branch.post.sound.path{i}', r.status, time=r.time, backend=r.backend, reason=r.reason,
                 where='True => every object satisfying the metahint and the validators of self satisfies the branch (its metahint and equal validators, or the branch itself if it is not Annotated)')
     if not outs: rep.error('C19.AnnotatedTypeHint: no path')
+    # ---- UnionTypeHint._is_subhint: any number of branches on both sides
+    import beartype.door._cls.pep.doorpep484604 as umod
+    fobj, node, _ = funcmode.load('beartype/door/_cls/pep/doorpep484604.py', 'UnionTypeHint._is_subhint')
+    isun = z3.Bool('other_is_union'); OTHER_U = z3.Const('other_u', M.Obj)
+    def m_isinst_un(ex_, s, f, a, kw, w):
+        if isinstance(a[0], VObj) and a[0].t.eq(OTHER_U) and isinstance(a[1], VPy) and a[1].o is umod.UnionTypeHint: return [(s, VBool(isun))]
+        return Exec.b_isinstance(ex_, s, a, kw, w)
+    ex = Exec(uni, dict(umod.__dict__), call_model={isinstance: m_isinst_un, '.is_subhint': m_le}, name='union'); ex.fields_mode = True; ex.method_names = {'is_subhint'}; ex.quantify_allany = True
+    BS, BO = z3.Select(F('_branches'), SELF), z3.Select(F('_branches'), OTHER_U)
+    pre = (M.inst(BS, uni.const(tuple)), M.inst(BO, uni.const(tuple)))
+    try: outs = ex.run_function(node, St((), pre), (VObj(SELF), VObj(OTHER_U)), {}, fobj)
+    except symx.Unsupported as e: rep.error(f'C19.UnionTypeHint: unsupported: {e}'); outs = []
+    br_ = z3.Const('br_', M.Obj)
+    def un_mean(branches, x): return z3.Exists([br_], z3.And(M.mem(branches, br_), MEAN(br_, x)))
+    pr = discharge.Prover(uni.axioms() + [IH])
+    for ob in ex.obls:
+        r = pr.prove(list(ob.pc), ob.goal); rep.add(f'C19.UnionTypeHint.{ob.kind}#{ob.name.rsplit(".", 1)[-1]}', r.status, time=r.time, backend=r.backend, where=ob.where)
+    for i, (s, v) in enumerate(outs):
+        r = pr.prove(list(s.pc) + [ex.truth(v), un_mean(BS, X)], z3.If(isun, un_mean(BO, X), MEAN(OTHER_U, X)))
+        rep.add(f'C19.UnionTypeHint._is_subhint.post.sound.path{i}', r.status, time=r.time, backend=r.backend, reason=r.reason,
+                where='a union is a subhint only if every object satisfying one of its branches satisfies the other hint (one of ITS branches if it is a union); any number of branches')
+    if not outs: rep.error('C19.UnionTypeHint: no path')
     # ---- TupleFixedTypeHint._is_subhint_branch vs another fixed tuple, per arity
     import beartype.door._cls.pep.pep484585.doorpep484585tuple as tmod
     fobj, node, _ = funcmode.load('beartype/door/_cls/pep/pep484585/doorpep484585tuple.py', 'TupleFixedTypeHint._is_subhint_branch')
